@@ -141,7 +141,7 @@ func init() {
 			return BV(uint64(ch.nclose), 64)
 		},
 		"verifTime": func(fr *frame, args []value) value {
-			return timeVal{fr.m.input(args[0].(string), 64)}
+			return timeVal{ns: fr.m.input(args[0].(string), 64)}
 		},
 		"verifGuardedBy": func(fr *frame, args []value) value {
 			mu, _ := args[0].(*value)
@@ -233,7 +233,7 @@ func init() {
 			fr.m.timeWinHi = uint64(fr.m.asInt(args[1], "time window"))
 			return nil
 		},
-		"verifTimeOf":         func(fr *frame, args []value) value { return timeVal{args[0].(*Term)} },
+		"verifTimeOf":         func(fr *frame, args []value) value { return timeVal{ns: args[0].(*Term)} },
 		"verifTimeNs":         func(fr *frame, args []value) value { return args[0].(timeVal).ns },
 		"verifShowsDecimals4": inShowsDecimals4,
 		"verifRegister":       noop,
